@@ -628,6 +628,8 @@ def record(tally, cfg, hist, res):
             cls = obs.get("class") if clause in ("render-no-raise", "event-no-raise") else _why_class(clause, why)
             last_op = "initial" if not hist else (f"key {hist[-1][1]}" if hist[-1][0] == "key" else hist[-1][0])
             zero = any(k in ("z0", "zs") for k, _l in cfg["items"])
+            if clause == "click-focus" and len(hist) > 1:
+                last_op += f" right after {hist[-2][0]}"
             cls = f"{cls} | last op {last_op} | {'with' if zero else 'no'} 0-row item in the initial list"
 
         def detail(clause=clause, why=why):
@@ -637,11 +639,18 @@ def record(tally, cfg, hist, res):
 
 
 def explore(task):
+    with warnings.catch_warnings():
+        warnings.simplefilter("ignore")
+        return _explore(task)
+
+
+def _explore(task):
     cfg, depth, opts = task[:3]
-    warnings.simplefilter("ignore")
+    part, nparts = task[4] if len(task) > 4 else (0, 1)  # big tasks are split by the first operation
     tally = Tally()
     root = run_history(cfg, [])
-    record(tally, cfg, [], root)
+    if part == 0:
+        record(tally, cfg, [], root)
     tally.steps += 1
     seen = set()
     frontier = []
@@ -651,7 +660,10 @@ def explore(task):
     for d in range(depth):
         nxt = []
         for hist, info in frontier:
-            for op in gen_ops(info, d, opts):
+            ops = gen_ops(info, d, opts)
+            if d == 0:
+                ops = ops[part::nparts]
+            for op in ops:
                 h = [*hist, op]
                 res = run_history(cfg, h)
                 tally.steps += len(h) + 1
@@ -713,10 +725,12 @@ def tasks_for(tier):
         tasks.append((_cfg(["s1", "t7", "e1.1"], (3, 3), "slw", False), 2, full, 10))
     else:
         for j, kinds in enumerate(CURATED):
-            for si, size in enumerate(SIZES_THOROUGH):
-                for wi, w in enumerate(WALKERS):
-                    deep = (si + wi * 2) % 6 == j % 6 and wi == j % 3  # one (box, walker) per list gets depth 3
-                    tasks.append((_cfg(kinds, size, w), 3 if deep else 2, {}, 400 if deep else 10))
+            for wi, w in enumerate(WALKERS):  # every list with every walker, on two of the six boxes each
+                for size in (SIZES_THOROUGH[(j + wi) % 6], SIZES_THOROUGH[(j + wi + 3) % 6]):
+                    tasks.append((_cfg(kinds, size, w), 2, full, 10))
+        for j, kinds in enumerate(CURATED[3::6]):  # all histories of 3 operations, full alphabet
+            for part in range(6):
+                tasks.append((_cfg(kinds, SIZES_THOROUGH[(1 + j) % 4], WALKERS[j % 3]), 3, full, 400, (part, 6)))
         for kinds in CURATED[::4]:
             tasks.append((_cfg(kinds, (3, 2), "min"), 2, full, 10))
             tasks.append((_cfg(kinds, (3, 3), "sflw", False), 2, full, 10))
@@ -729,20 +743,29 @@ def tasks_for(tier):
             if quick:
                 tasks.append((_cfg(ks, [(3, 2), (3, 4)][j % 2], WALKERS[j % 3]), 2 if b is None else 1, full, 5 if b is None else 1))
             else:
-                for size in [(3, 2), (3, 4)] if b is not None else [(3, 1), (3, 2), (3, 3), (9, 5)]:
-                    tasks.append((_cfg(ks, size, WALKERS[j % 3]), 2, {}, 7))
+                tasks.append((_cfg(ks, [(3, 2), (3, 4), (3, 1), (9, 3)][j % 4], WALKERS[j % 3]), 2, full, 7))
             j += 1
     # 3. deeper histories on the reduced alphabet
-    deep_lists = CURATED[12::10] if quick else CURATED[2::4]
+    deep_lists = CURATED[12::10] if quick else [CURATED[i] for i in (14, 26, 27, 39, 45)]
     for j, kinds in enumerate(deep_lists):
-        tasks.append((_cfg(kinds, (3, 2 + j % 2), WALKERS[j % 3]), 3 if quick else 4, DEEP_OPTS, 30 if quick else 500))
+        cfg = _cfg(kinds, (3, 2 + j % 2), WALKERS[j % 3])
+        if quick:
+            tasks.append((cfg, 3, DEEP_OPTS, 30))
+        else:
+            for part in range(8):
+                tasks.append((cfg, 4, DEEP_OPTS, 500, (part, 8)))
     return tasks
 
 
 # ----------------------------------------------------------------------------------- random histories
 def random_task(arg):
+    with warnings.catch_warnings():
+        warnings.simplefilter("ignore")
+        return _random_task(arg)
+
+
+def _random_task(arg):
     seed, chunk, count, length = arg
-    warnings.simplefilter("ignore")
     r = rng(seed * 1000 + chunk)
     tally = Tally()
     for _ in range(count):
@@ -818,11 +841,16 @@ def run(tier="quick", seed=0):
     for t in _pool_map(explore, tasks, procs):
         _merge(total, t)
     quick = tier == "quick"
-    ndeep3 = sum(1 for t in tasks if t[1] == 3 and not t[2])
-    ndeepr = sum(1 for t in tasks if t[2])
+    import json
+
+    def ncfg(pred):
+        return len({json.dumps(t[0]) for t in tasks if pred(t)})
+
+    ndeep3 = ncfg(lambda t: t[1] == 3 and t[2] is not DEEP_OPTS)
+    ndeepr = ncfg(lambda t: t[2] is DEEP_OPTS)
     bound = (
-        f"{len(tasks)} initial configurations = {len(CURATED)} curated lists of 0..4 items "
-        f"{'x one box and one walker each (rotating over 5 boxes, 3 walkers)' if quick else 'x 6 boxes x 3 walkers'} + every list of 1 and 2 items over {len(ALL_KINDS)} kinds "
+        f"{ncfg(lambda t: True)} initial configurations = {len(CURATED)} curated lists of 0..4 items "
+        f"{'x one box and one walker each (rotating over 5 boxes, 3 walkers)' if quick else 'x 3 walkers x 2 of 6 boxes (rotating)'} + every list of 1 and 2 items over {len(ALL_KINDS)} kinds "
         f"(Text / selectable Text / Edit / SelectableIcon of 1, 3, {TALL} rows and width-dependent height; 0-row items; cursors on first/middle/last row) + a few with a positions()-less walker or rendered without focus; "
         f"walkers SimpleListWalker, SimpleFocusListWalker, custom key walker; boxes {WIDTHS[0]} or {WIDTHS[1]} columns x 1..6 rows. "
         f"ALL histories of <= 2 operations{' (1 for the two-item lists)' if quick else ''}"
@@ -834,7 +862,7 @@ def run(tier="quick", seed=0):
     checks = [_result(f"{ID}/{c}", RULES[c], bound, True, total, c, t0) for c in CLAUSES]
     t1 = time.time()
     nchunks = procs * 2
-    count, length = (12, 10) if quick else (400, 14)
+    count, length = (12, 10) if quick else (200, 14)
     rt = Tally()
     for t in _pool_map(random_task, [(seed, i, count, length) for i in range(nchunks)], procs):
         _merge(rt, t)
@@ -844,10 +872,11 @@ def run(tier="quick", seed=0):
 
 def replay(check_name, case):
     clause = check_name.split("/", 1)[1] if "/" in check_name else check_name
-    warnings.simplefilter("ignore")
     cfg = case["cfg"]
     ops = [list(o) for o in case["ops"]]
-    res = run_history(cfg, ops)
+    with warnings.catch_warnings():
+        warnings.simplefilter("ignore")
+        res = run_history(cfg, ops)
     v = res["verdicts"]
     if clause == "random-histories":
         bad = {c: x[1] for c, x in v.items() if not x[0]}
